@@ -373,7 +373,7 @@ def session_blob(w, sid, user, alg, keyblob):
     return m.asbytes()
 
 
-def drive_server(w, Srv, t, declared, keyblob, cb_failed, attached, sigbytes, prior=(), partial=False):
+def drive_server(w, Srv, t, declared, keyblob, cb_failed, attached, sigbytes, prior=(), partial=False, ext=None):
     """Returns canonical outcome (as Model run_server) of the LAST request.  `prior`: earlier publickey
     requests (declared, keyblob, attached, sigbytes) delivered to the SAME AuthHandler first (a key probe
     answered with PK_OK, a rejected signed request, ...)."""
@@ -381,6 +381,8 @@ def drive_server(w, Srv, t, declared, keyblob, cb_failed, attached, sigbytes, pr
     sent = []
     srv = Srv(cb_failed)
     srv.partial = partial
+    # the transport is past KEXINIT: whether the client's KEXINIT carried the ext-info-c marker
+    t._remote_ext_info = ext
     t.server_mode = True
     t.server_object = srv
     t.session_id = b"session-id-c07"
@@ -477,14 +479,16 @@ def server_cases(ctx, w):
                     data = session_blob(w, b"session-id-c07", "user", declared, blob)
                     sigb, valid = make_sig(w, signer, name, how, data)
                     part = (vi % 3 == 1)        # the application answers AUTH_PARTIALLY_SUCCESSFUL
-                    impl, srv, h = drive_server(w, Srv, t, declared, blob, cbf, att, sigb, partial=part)
+                    ext = "ext-info-c" if (vi + ci) % 2 else None      # a client with / without EXT_INFO support
+                    impl, srv, h = drive_server(w, Srv, t, declared, blob, cbf, att, sigb, partial=part, ext=ext)
                     case = {"disabled_pubkeys": dis, "declared": declared, "blob": label, "sig_name": name,
-                            "made_with": how, "cb_failed": cbf, "sig_attached": att, "callback_partial": part}
+                            "made_with": how, "cb_failed": cbf, "sig_attached": att, "callback_partial": part,
+                            "client_ext_info": ext}
                     cases.append((case, ((([list(x.encode()) for x in default]),
                                           [list(x.encode()) for x in dis]),
                                          list(declared.encode()), (list(bt), mc), (cbf, att),
                                          list(name.encode()), valid), impl))
-                    ctx.count(("server", tuple(dis), declared, label, name, how, cbf, att, part), nontrivial=True,
+                    ctx.count(("server", tuple(dis), declared, label, name, how, cbf, att, part, ext), nontrivial=True,
                               kind={0: "server-verified", 1: "server-disconnect", 2: "server-refused",
                                     3: "server-probe-ok", 4: "server-sig-rejected"}.get(impl[0], "server-other"))
                     base = declared.replace(CERT, "")
@@ -569,12 +573,13 @@ def server_histories(ctx, w):
                             else:
                                 d1 = session_blob(w, b"session-id-c07", "user", first, blob)
                                 prior = [(first, blob, True, make_sig(w, signer, first, "wrongdata", d1)[0])]
-                            fresh, _, _ = drive_server(w, Srv, t, second, blob, False, True, sigb)
-                            impl, srv, h = drive_server(w, Srv, t, second, blob, False, True, sigb, prior=prior)
+                            hext = "ext-info-c" if n % 2 else None
+                            fresh, _, _ = drive_server(w, Srv, t, second, blob, False, True, sigb, ext=hext)
+                            impl, srv, h = drive_server(w, Srv, t, second, blob, False, True, sigb, prior=prior, ext=hext)
                             n += 1
                             case = {"side": "server-history", "disabled_pubkeys": dis, "blob": label,
                                     "first_request": kind, "first_declared": first, "declared": second,
-                                    "sig_name": name, "made_with": how}
+                                    "sig_name": name, "made_with": how, "client_ext_info": hext}
                             ctx.count(("server-history", tuple(dis), label, first, kind, second, name, how),
                                       nontrivial=True, kind="server-history-" + kind)
                             base = second.replace(CERT, "")
@@ -639,6 +644,78 @@ def prefs_cases(ctx, w, n):
                 ctx.fail("preferred-pubkeys-contains-disabled", "preferred_pubkeys lists a disabled algorithm",
                          case=cases[-1][0], observed=pp)
     return cases
+
+
+# --------------------------------------------------------------------------
+# <key>.verify_ssh_sig called DIRECTLY (public API) with near-miss labels over a genuine signature
+
+
+def near_miss_labels(good, others):
+    g = good
+    out = [g, g + CERT, g + CERT + CERT, CERT, g.upper(), g.capitalize(), g + "\x00", g + " ", " " + g, g + "\n",
+           g[:-1], g + "x", g[1:], "", g.replace("-", "_"), g + "," + g, g + "\x00" + CERT]
+    return out + [o for o in others if o != g] + [o + CERT for o in others]
+
+
+def verify_direct_cases(ctx, w):
+    p = w.paramiko
+    data = b"data signed for a direct verify_ssh_sig call"
+    fams = {"rsa": ["ssh-rsa", "rsa-sha2-256", "rsa-sha2-512"], "p256": ["ecdsa-sha2-nistp256"],
+            "p384": ["ecdsa-sha2-nistp384"], "p521": ["ecdsa-sha2-nistp521"], "ed": ["ssh-ed25519"]}
+    everything = sorted({n for v in fams.values() for n in v})
+    rows = []
+    blobs = {label: blob for label, signer, blob in w.blobs}
+    for signer, key in sorted(w.signers.items()):
+        # the verifying object: the private key object, a public key parsed from the wire blob, a cert-loaded key
+        verifiers = [("private-key-object", key)]
+        for lab in [l for l, sg, _ in w.blobs if sg == signer and l not in ("rsa-truncated", "unknown-type",
+                                                                           "double-cert-type")]:
+            try:
+                verifiers.append(("parsed:" + lab, type(key)(data=blobs[lab])))
+            except Exception:
+                pass
+        hows = ("sha1", "sha256", "sha512") if signer == "rsa" else ("real",)
+        for how in hows:
+            sigbytes = raw_sig(w, signer, how, data)
+            valid = [HASH_ID[how]] if signer == "rsa" else [0] if signer == "ed" else [w.curve_hash[signer]]
+            for good in fams[signer]:
+                for lab in near_miss_labels(good, everything) + ["\xff\xfe" + good]:
+                    raw = lab.encode("latin-1") if lab.startswith("\xff") else lab.encode("utf-8")
+                    m = w.Message()
+                    m.add_string(raw)
+                    m.add_string(sigbytes)
+                    for vname, vk in verifiers:
+                        try:
+                            res = bool(vk.verify_ssh_sig(data, w.Message(m.asbytes())))
+                        except Exception as e:  # noqa  (an exception is a rejection here; robustness is C35's)
+                            res = False
+                        # reference: ECDSA / Ed25519 accept exactly their own identifier; RSA what its HASHES table
+                        # maps to the hash the signature was really made with
+                        if signer == "rsa":
+                            hcls = p.RSAKey.HASHES.get(lab)
+                            expect = hcls is not None and hcls is w.hashcls[how]
+                        else:
+                            expect = lab == fams[signer][0]
+                        case = {"side": "verify-direct", "key": signer, "verifier": vname, "label": lab,
+                                "made_with": how}
+                        ctx.count(("verify-direct", signer, vname, lab, how), nontrivial=True,
+                                  kind="verify-direct-" + signer)
+                        if res and not expect:
+                            ctx.fail("verify-ssh-sig-accepts-mislabelled-signature",
+                                     "%s.verify_ssh_sig returned True for a genuine signature whose algorithm label "
+                                     "%r is not the key's own algorithm name" % (type(vk).__name__, lab), case=case,
+                                     expected=False, observed=True)
+                        if expect and not res:
+                            ctx.fail("verify-ssh-sig-rejects-genuine-signature",
+                                     "%s.verify_ssh_sig rejected a genuine, correctly labelled signature"
+                                     % type(vk).__name__, case=case, expected=True, observed=False)
+                    if not lab.startswith("\xff") and "\x00" not in lab:
+                        cls = 0 if signer == "rsa" else 2 if signer == "ed" else 1
+                        ident = "ssh-rsa" if signer == "rsa" else fams[signer][0]
+                        rows.append(({"key": signer, "label": lab, "made_with": how},
+                                     (cls, list(ident.encode()), list(lab.encode()), valid),
+                                     [1 if bool(verifiers[0][1].verify_ssh_sig(data, w.Message(m.asbytes()))) else 0]))
+    return rows
 
 
 # --------------------------------------------------------------------------
@@ -1056,7 +1133,7 @@ def run(ctx):
                 "(RSA: 6 HASHES names, 3 foreign; EC: 5; Ed: 3) x how the bytes were really made (RSA: SHA-1, "
                 "SHA-256, SHA-512, other data; else real / other data); server = the same x 6 disabled-pubkeys "
                 "sets (first set fully enumerated in the quick tier, the others sampled at 15 %; thorough: all) "
-                "with callback refusal / key probe riding along; two-request histories on one AuthHandler (key probe or rejected signed request naming one algorithm, then a signed request naming another; second decision compared with a fresh handler's); every client case repeated with the transport already holding the same / another host key (re-key); the client's host key choice on the real _parse_kex_init over generated (preferred, disabled, server offer) incl. servers offering only disabled algorithms; application callbacks answering AUTH_PARTIALLY_SUCCESSFUL; preference lists on generated configurations; "
+                "with callback refusal / key probe riding along; two-request histories on one AuthHandler (key probe or rejected signed request naming one algorithm, then a signed request naming another; second decision compared with a fresh handler's); every client case repeated with the transport already holding the same / another host key (re-key); every key class's verify_ssh_sig called directly (private-key object, key parsed from the wire blob, cert-loaded key) with near-miss algorithm labels (cert suffix once / twice, other curve / family, case, trailing NUL / space / newline, truncation, non-UTF-8) over genuine signatures; the client's host key choice on the real _parse_kex_init over generated (preferred, disabled, server offer) incl. servers offering only disabled algorithms; application callbacks answering AUTH_PARTIALLY_SUCCESSFUL; preference lists on generated configurations; "
                 "loopback handshakes / authentications against a peer signing with another algorithm.  A case "
                 "is non-trivial when distinct; every case reaches a key-class / name / hash branch.")
     ctx.trusted += ["model coq/Model/C07.v is hand-written; tied to rsakey.py / ecdsakey.py / ed25519key.py / "
@@ -1081,6 +1158,7 @@ def run(ctx):
     pc = prefs_cases(ctx, w, 300 if ctx.thorough else 60)
     nc = loop_oracle(ctx, w)
     nc += negotiate_cases(ctx, w, 400 if ctx.thorough else 80)
+    vc = verify_direct_cases(ctx, w)
 
     # ---- model comparisons ----
     bad = model(ctx, "run_client", "(name * (name * Z) * name * list Z)", cc, coq_client)
@@ -1099,6 +1177,11 @@ def run(ctx):
     if acc:
         ctx.sample({"server_pubkey": {"case": acc[0][0], "impl": acc[0][2]}})
     ctx.exhaustive = full
+
+    bad = model(ctx, "run_verify", "(Z * name * name * list Z)", vc,
+                lambda nt, c: "(%d, %s, %s, %s)" % (c[0], nt.n(c[1]), nt.n(c[2]), coq(c[3])))
+    for i in bad[:3]:
+        ctx.disagree("verify_ssh_sig (direct call) differs from model verify_ssh_sig", case=vc[i][0], impl=vc[i][2])
 
     bad = model(ctx, "run_prefs", "(list name * list name * list name * list name)", pc,
                 lambda nt, c: "(%s, %s, %s, %s)" % tuple(nt.l(x) for x in c))
@@ -1134,6 +1217,9 @@ def replay(ctx, rep):
             ctx.fail(rep["key"], rep["what"], case=case, expected="SSHException", observed="accepted")
         elif impl[0] != 0 and rep["key"] == "verify-key-rejects-honest-signature":
             ctx.fail(rep["key"], rep["what"], case=case, expected="accepted", observed=repr(exc))
+    elif side == "verify-direct":
+        vc = verify_direct_cases(ctx, w)
+        ctx.log("replay: %d direct verify_ssh_sig calls re-run" % len(vc))
     elif side == "server-history" and case.get("blob") in blobs:
         signer, blob = blobs[case["blob"]]
         Srv = make_server_class(w)
@@ -1145,8 +1231,9 @@ def replay(ctx, rep):
         else:
             d1 = session_blob(w, b"session-id-c07", "user", case["first_declared"], blob)
             prior = [(case["first_declared"], blob, True, make_sig(w, signer, case["first_declared"], "wrongdata", d1)[0])]
-        fresh, _, _ = drive_server(w, Srv, t, case["declared"], blob, False, True, sigb)
-        impl, srv, h = drive_server(w, Srv, t, case["declared"], blob, False, True, sigb, prior=prior)
+        hext = case.get("client_ext_info")
+        fresh, _, _ = drive_server(w, Srv, t, case["declared"], blob, False, True, sigb, ext=hext)
+        impl, srv, h = drive_server(w, Srv, t, case["declared"], blob, False, True, sigb, prior=prior, ext=hext)
         ctx.log("replay server history:", case, "->", impl, "fresh:", fresh)
         enabled = [x for x in w.paramiko.Transport._preferred_pubkeys if x not in case["disabled_pubkeys"]]
         base = case["declared"].replace(CERT, "")
@@ -1160,7 +1247,7 @@ def replay(ctx, rep):
         data = session_blob(w, b"session-id-c07", "user", case["declared"], blob)
         sigb, valid = make_sig(w, signer, case["sig_name"], case["made_with"], data)
         impl, srv, h = drive_server(w, Srv, t, case["declared"], blob, case["cb_failed"], case["sig_attached"], sigb,
-                                    partial=case.get("callback_partial", False))
+                                    partial=case.get("callback_partial", False), ext=case.get("client_ext_info"))
         ctx.log("replay server:", case, "->", impl)
         base = case["declared"].replace(CERT, "")
         enabled = [x for x in w.paramiko.Transport._preferred_pubkeys if x not in case["disabled_pubkeys"]]
